@@ -58,7 +58,7 @@ def setup_worker():
 def plan(tier):
     if tier == "thorough":
         return {"runs": 20000, "budget_s": 1500, "chunk": 20, "recheck": 8, "shrink_s": 150}
-    return {"runs": 450, "budget_s": 200, "chunk": 6, "recheck": 6, "shrink_s": 60}
+    return {"runs": 1500, "budget_s": 200, "chunk": 10, "recheck": 6, "shrink_s": 60}
 
 
 # ------------------------------------------------------------------ generator
@@ -143,6 +143,43 @@ def generate(rng, tier):
                                      "body": [inner, ["tn", v], g.leaf()]}], None, ([g.leaf()] if rng.random() < 0.3 else None)]
     pre = [g.leaf()] if rng.random() < 0.3 else []
     post = [g.leaf()] if rng.random() < 0.2 else []
+    r = rng.random()
+    if r < 0.12:
+        # sibling handlers: an earlier handler names v, later handlers / else / finally / the code after the try
+        # read or assign the OUTER variable of the same name
+        placement = rng.choice(["top", "call"])
+        g.allow_vars = True
+        v = rng.choice(["e", "x"])
+
+        def use():
+            return rng.choice([["get", v], ["setv", v, g.leaf()], ["tn", v], ["do", [["setv", v, g.leaf()], ["get", v]]]])
+
+        hs = [{"types": ["one", ["T", g.tag(), rng.choice(["A", "B"])]], "var": v, "body": [rng.choice([g.leaf(), ["tn", v]])]}]
+        for _ in range(rng.choice([1, 1, 2])):
+            hs.append({"types": ["one", ["T", g.tag(), rng.choice(["C", "A", "Exception", "D"])]],
+                       "var": rng.choice([None, None, "err"]), "body": [use()] + ([g.leaf()] if rng.random() < 0.5 else [])})
+        if rng.random() < 0.3:
+            hs.append({"types": None, "var": None, "body": [use()]})
+        root = ["try", [g.leaf(), g.leaf()], hs, ([use()] if rng.random() < 0.4 else None), ([use()] if rng.random() < 0.4 else None)]
+        post = [["get", v]]
+    elif r < 0.24:
+        # a try that is the value of an assignment to v and whose clauses read (the old) v; handlers may be empty
+        placement = rng.choice(["top", "call"])
+        g.allow_vars = True
+        v = rng.choice(["x", "w", "e"])
+
+        def rd():
+            return rng.choice([["get", v], g.leaf(), ["do", [g.leaf(), ["get", v]]]])
+
+        hs = []
+        for _ in range(rng.choice([1, 1, 2])):
+            hs.append({"types": ["one", ["T", g.tag(), rng.choice(["A", "B", "C", "Exception"])]], "var": rng.choice([None, None, "err"]),
+                       "body": rng.choice([[], [], [rd()], [g.leaf(), rd()]])})
+        inner = ["try", [rd(), rd()], hs, ([rd()] if rng.random() < 0.3 else None), ([rd()] if rng.random() < 0.4 else None)]
+        root = ["do", [["setv", v, inner], ["get", v]]] if rng.random() < 0.5 else ["setv", v, inner]
+        if rng.random() < 0.4:
+            root = ["try", [root], [{"types": ["one", ["T", g.tag(), "Exception"]], "var": None, "body": [["get", v]]}], None, None]
+        post = [["get", v]]
     return {"placement": placement, "root": root, "pre": pre, "post": post, "pair_seed": rng.randrange(1 << 30)}
 
 
